@@ -20,6 +20,8 @@ func Generate(prop string, seed uint64) *Scenario {
 			return GenGame(prop, seed)
 		}
 		return GenUciSession(prop, seed)
+	case "C16":
+		return GenC16Session(seed)
 	case "C14":
 		if seed%4 == 3 {
 			return GenUciSession(prop, seed)
@@ -84,6 +86,9 @@ func finishUci(sc *Scenario, out *UciRunOut, res *RunResult) {
 	}
 	CheckUciHistory(sc, out, res)
 	checkSimCommon(sc, sim, res)
+	if hasGroup(sc.Checks, "c16") {
+		CheckFenHalf(sc, res)
+	}
 	for k, v := range out.Faults {
 		for i := 0; i < v; i++ {
 			res.fault(k)
